@@ -12,7 +12,7 @@ verus! {
 //@include shim/either.rs
 pub use compact_encoding::*;
 pub use ed25519_dalek::{SigningKey, VerifyingKey, Signature, PUBLIC_KEY_LENGTH, SECRET_KEY_LENGTH};
-broadcast use vp_std::group_std_gaps, compact_encoding::lemma_enc_uint_len;
+broadcast use vp_std::group_std_gaps, compact_encoding::lemma_enc_uint_len, ed25519_dalek::group_key_lens, compact_encoding::axiom_enc_strings_empty;
 
 /*@ item dep:compact-encoding-2.2.0/src/lib.rs macro sum_encoded_size @*/
 /*@ item dep:compact-encoding-2.2.0/src/lib.rs macro map_encode @*/
@@ -23,6 +23,7 @@ broadcast use vp_std::group_std_gaps, compact_encoding::lemma_enc_uint_len;
 //@include shim/oplog_format.rs
 //@include shim/oplog_codec_assumed.rs
 //@include shim/errors.rs
+/*@ item src/tree/merkle_tree_changeset.rs struct MerkleTreeChangeset @*/
 
 /*@ item src/oplog/mod.rs const MAX_OPLOG_ENTRIES_BYTE_SIZE @*/
 /*@ item src/oplog/mod.rs const HEADER_SIZE @*/
@@ -36,6 +37,7 @@ broadcast use vp_std::group_std_gaps, compact_encoding::lemma_enc_uint_len;
 /*@ item src/oplog/mod.rs struct ValidateLeaderOutcome @*/
 /*@ enum-cast src/oplog/mod.rs OplogSlot vp_slot_value @*/
 /*@ item src/oplog/mod.rs const INITIAL_HEADER_BITS @*/
+/*@ item src/crypto/manifest.rs const DEFAULT_NAMESPACE @*/
 
 // ---------------- format ----------------
 pub open spec fn le32(v: u32) -> Seq<u8> { le_bytes(v as u64, 4) }
@@ -303,6 +305,217 @@ impl Oplog {
             lemma_frames_len(batch@, atomic, header_bit, len as int);
             assert(buffer@ == fin0);
         }
+    @*/
+}
+
+pub open spec fn clear_entry_enc(start: u64, length: u64) -> Seq<u8> { seq![8u8] + (seq![1u8] + enc_uint(start) + enc_uint(length)) }
+
+impl Oplog {
+    /*@ fn src/oplog/mod.rs Oplog::clear
+    tags: C01 C02 C06
+    result: r
+    requires:
+        start <= end,
+        old(self).entries_byte_length <= 0xffff_ffff_ffff, old(self).entries_length <= 0xffff_ffff_ffff
+    ensures:
+        r is Ok,
+        final(self).header_bits == old(self).header_bits,
+        r is Ok ==> r->Ok_0@.len() == 1,
+        // one entry: flags = 8 (bitfield only), drop = 1, start, length
+        r is Ok ==> is_write(r->Ok_0@[0], Store::Oplog, 8192 + old(self).entries_byte_length,
+                   frame(clear_entry_enc(start, (end - start) as u64), false, Oplog::cur_hbit(old(self).header_bits))),
+        r is Ok ==> final(self).entries_byte_length == old(self).entries_byte_length + 8 + clear_entry_enc(start, (end - start) as u64).len(),
+        r is Ok ==> final(self).entries_length == old(self).entries_length + 1
+    before `self.append_entries(&[entry], false)`:
+        proof {
+            reveal_with_fuel(entry_tail, 6);
+            reveal_with_fuel(frames, 3);
+            reveal_with_fuel(sum_enc, 3);
+            assert(0 < entry_enc(entry).len() < 64);
+            assert(8u8 == 0u8 | 0u8 | 0u8 | 8u8) by (bit_vector);
+            assert(entry_enc(entry) =~= clear_entry_enc(start, (end - start) as u64));
+            let h = Oplog::cur_hbit(self.header_bits);
+            assert(frames(seq![entry], false, h, 1) =~= frame(entry_enc(entry), false, h));
+            lemma_frame_len(entry_enc(entry), false, h);
+        }
+    @*/
+
+    /*@ fn src/oplog/mod.rs Oplog::flush
+    tags: C02 C06 C12
+    result: r
+    requires:
+        header_fits(*header)
+    ensures:
+        r is Ok,
+        final(self).entries_byte_length == 0, final(self).entries_length == 0,
+        // ordinary flush: the non-live slot is rewritten and becomes live, entries are truncated away
+        !clear_traces ==> r->Ok_0@.len() == 2
+            && is_slot_write(r->Ok_0@[0], if Oplog::cur_hbit(old(self).header_bits) { 0int } else { 4096int }, *header,
+                   if Oplog::cur_hbit(old(self).header_bits) { !old(self).header_bits[0] } else { !old(self).header_bits[1] },
+                   8 + 2 * header_enc(*header).len() as int)
+            && is_truncate(r->Ok_0@[1], Store::Oplog, 8192)
+            && Oplog::cur_hbit(final(self).header_bits) != Oplog::cur_hbit(old(self).header_bits),
+        // clearing traces: BOTH slots are rewritten, each zero-padded to the full 4096 bytes, then the truncate
+        clear_traces ==> r->Ok_0@.len() == 3
+            && is_slot_write(r->Ok_0@[0], if Oplog::cur_hbit(old(self).header_bits) { 0int } else { 4096int }, *header,
+                   if Oplog::cur_hbit(old(self).header_bits) { !old(self).header_bits[0] } else { !old(self).header_bits[1] }, 4096)
+            && is_slot_write(r->Ok_0@[1], if Oplog::cur_hbit(old(self).header_bits) { 4096int } else { 0int }, *header,
+                   if Oplog::cur_hbit(old(self).header_bits) { !old(self).header_bits[1] } else { !old(self).header_bits[0] }, 4096)
+            && is_truncate(r->Ok_0@[2], Store::Oplog, 8192)
+    sub `infos_to_flush\.into_vec\(\)\.drain\(0\.\.1\)\.collect\(\)` => `vp_take_first(infos_to_flush.into_vec())`
+    sub `combined_infos_to_flush\.extend\(infos_to_flush\.into_vec\(\)\)` => `vp_extend(&mut combined_infos_to_flush, infos_to_flush.into_vec())`
+    @*/
+}
+
+pub proof fn lemma_node_seq_len(s: Seq<Node>)
+    requires forall|i: int| 0 <= i < s.len() ==> (#[trigger] s[i]).hash@.len() == 32
+    ensures enc_seq(s).len() <= 50 * s.len()
+    decreases s.len()
+{
+    if s.len() > 0 {
+        lemma_node_seq_len(s.skip(1));
+        assert(forall|i: int| 0 <= i < s.skip(1).len() ==> s.skip(1)[i] == s[i + 1]);
+    }
+}
+pub open spec fn nodes_same(a: Seq<Node>, b: Seq<Node>) -> bool {
+    a.len() == b.len() && forall|i: int| 0 <= i < a.len() ==> Node::eqv(#[trigger] a[i], b[i])
+}
+pub open spec fn header_same_except_tree(a: Header, b: Header) -> bool {
+    a.key == b.key && a.manifest == b.manifest && a.key_pair == b.key_pair && a.user_data == b.user_data && a.hints == b.hints
+}
+
+impl Oplog {
+    /*@ fn src/oplog/mod.rs Oplog::update_header_with_changeset
+    tags: C01 C02 C04 C05 C06
+    result: r
+    requires:
+        changeset.upgraded ==> changeset.hash is Some && changeset.signature is Some
+    ensures:
+        r is Ok,
+        *final(self) == *old(self),
+        r->Ok_0.user_data@.len() == 0,
+        r->Ok_0.bitfield == bitfield_update,
+        nodes_same(r->Ok_0.tree_nodes@, changeset.nodes@),
+        header_same_except_tree(*final(header), *old(header)),
+        // what is stored in the header and logged in the entry is exactly what the changeset carries
+        changeset.upgraded ==> r->Ok_0.tree_upgrade is Some
+            && r->Ok_0.tree_upgrade->Some_0.fork == changeset.fork
+            && r->Ok_0.tree_upgrade->Some_0.ancestors == changeset.ancestors
+            && r->Ok_0.tree_upgrade->Some_0.length == changeset.length
+            && r->Ok_0.tree_upgrade->Some_0.signature@ == changeset.signature->Some_0.sig_bytes()
+            && final(header).tree.root_hash@ == changeset.hash->Some_0@
+            && final(header).tree.signature@ == changeset.signature->Some_0.sig_bytes()
+            && final(header).tree.length == changeset.length
+            && final(header).tree.fork == old(header).tree.fork,
+        !changeset.upgraded ==> r->Ok_0.tree_upgrade is None && *final(header) == *old(header)
+    @*/
+}
+
+impl Clone for HeaderTree {
+    #[verifier::external_body]
+    fn clone(&self) -> (r: Self) ensures r.fork == self.fork, r.length == self.length, r.root_hash@ == self.root_hash@, r.signature@ == self.signature@ { unimplemented!() }
+}
+impl Clone for Header {
+    #[verifier::external_body]
+    fn clone(&self) -> (r: Self) ensures header_eqv(r, *self), r.key_pair == self.key_pair, r.key == self.key, r.manifest == self.manifest,
+        r.user_data == self.user_data, r.hints == self.hints, header_enc(r) == header_enc(*self) { unimplemented!() }
+}
+
+/*@ fn src/crypto/manifest.rs fn default_signer_manifest
+tags: C06 C12
+result: r
+ensures:
+    r.hash@ == "blake2b"@, r.signer.signature@ == "ed25519"@, r.signer.public_key == public_key, r.signer.namespace == DEFAULT_NAMESPACE
+@*/
+impl HeaderTree {
+    /*@ fn src/oplog/header.rs HeaderTree::new
+    tags: C06 C12 C01
+    result: r
+    ensures:
+        r.fork == 0, r.length == 0, r.root_hash@.len() == 0, r.signature@.len() == 0
+    @*/
+}
+impl Header {
+    /*@ fn src/oplog/header.rs Header::new
+    tags: C06 C12 C01
+    result: r
+    ensures:
+        r.key_pair == key_pair, r.key@ == key_pair.public.bytes(),
+        r.user_data@.len() == 0, r.hints.reorgs@.len() == 0, r.hints.contiguous_length == 0,
+        r.tree.fork == 0, r.tree.length == 0, r.tree.root_hash@.len() == 0, r.tree.signature@.len() == 0,
+        r.manifest.signer.public_key@ == key_pair.public.bytes(),
+        header_fits(r)
+    @*/
+}
+
+impl OplogOpenOutcome {
+    /*@ fn src/oplog/mod.rs OplogOpenOutcome::new
+    tags: C01 C06
+    result: r
+    ensures:
+        r.oplog == oplog, r.header == header, r.infos_to_flush == infos_to_flush, r.entries is None
+    @*/
+    /*@ fn src/oplog/mod.rs OplogOpenOutcome::from_create_header_outcome
+    tags: C01 C06
+    result: r
+    ensures:
+        r.oplog == oplog, r.header == create_header_outcome.header, r.infos_to_flush == create_header_outcome.infos_to_flush, r.entries is None
+    @*/
+}
+
+impl Oplog {
+    /*@ fn src/oplog/mod.rs Oplog::append_changeset
+    tags: C01 C02 C04 C05 C06
+    result: r
+    requires:
+        changeset.upgraded ==> changeset.hash is Some && changeset.signature is Some,
+        changeset.nodes@.len() <= 0x10_0000,
+        forall|i: int| 0 <= i < changeset.nodes@.len() ==> (#[trigger] changeset.nodes@[i]).hash@.len() == 32,
+        old(self).entries_byte_length <= 0xffff_ffff_ffff, old(self).entries_length <= 0xffff_ffff_ffff
+    ensures:
+        r is Ok,
+        final(self).header_bits == old(self).header_bits,
+        r is Ok ==> final(self).entries_length == old(self).entries_length + 1,
+        r is Ok ==> header_same_except_tree(r->Ok_0.header, *header),
+        r is Ok ==> r->Ok_0.infos_to_flush@.len() == 1,
+        r is Ok ==> (exists|e: Entry| #![trigger entry_enc(e)]
+            e.user_data@.len() == 0 && e.bitfield == bitfield_update && nodes_same(e.tree_nodes@, changeset.nodes@)
+            && (e.tree_upgrade is Some) == changeset.upgraded
+            && (changeset.upgraded ==> e.tree_upgrade->Some_0.fork == changeset.fork && e.tree_upgrade->Some_0.ancestors == changeset.ancestors
+                && e.tree_upgrade->Some_0.length == changeset.length && e.tree_upgrade->Some_0.signature@ == changeset.signature->Some_0.sig_bytes())
+            && is_write(r->Ok_0.infos_to_flush@[0], Store::Oplog, 8192 + old(self).entries_byte_length,
+                   frame(entry_enc(e), atomic && false, Oplog::cur_hbit(old(self).header_bits)))
+            && final(self).entries_byte_length == old(self).entries_byte_length + 8 + entry_enc(e).len()),
+        r is Ok && changeset.upgraded ==> r->Ok_0.header.tree.root_hash@ == changeset.hash->Some_0@
+            && r->Ok_0.header.tree.signature@ == changeset.signature->Some_0.sig_bytes()
+            && r->Ok_0.header.tree.length == changeset.length && r->Ok_0.header.tree.fork == header.tree.fork,
+        r is Ok && !changeset.upgraded ==> header_eqv(r->Ok_0.header, *header)
+    before `Ok(OplogCreateHeaderOutcome {`:
+        proof {
+            reveal_with_fuel(entry_tail, 6);
+            reveal_with_fuel(frames, 3);
+            reveal_with_fuel(sum_enc, 3);
+            lemma_node_seq_len(entry.tree_nodes@);
+            assert(0 < entry_enc(entry).len() < 0x1000_0000);
+            let h = Oplog::cur_hbit(self.header_bits);
+            assert(frames(seq![entry], atomic, h, 1) =~= frame(entry_enc(entry), atomic && false, h));
+            lemma_frame_len(entry_enc(entry), atomic && false, h);
+        }
+        let ghost e0 = entry;
+    @*/
+
+    /*@ fn src/oplog/mod.rs Oplog::fresh
+    tags: C01 C06 C12
+    result: r
+    ensures:
+        r is Ok,
+        r is Ok ==> r->Ok_0.oplog.header_bits[0] == false && r->Ok_0.oplog.header_bits[1] == false
+            && r->Ok_0.oplog.entries_length == 0 && r->Ok_0.oplog.entries_byte_length == 0
+            && r->Ok_0.entries is None
+            && r->Ok_0.header.key_pair == key_pair
+            && r->Ok_0.infos_to_flush@.len() == 2
+            && is_slot_write(r->Ok_0.infos_to_flush@[0], 0, r->Ok_0.header, false, 8 + 2 * header_enc(r->Ok_0.header).len() as int)
+            && is_truncate(r->Ok_0.infos_to_flush@[1], Store::Oplog, 8192)
     @*/
 }
 
